@@ -1192,3 +1192,19 @@ dnoalarm('level-table-rebuilt-with-density-noalarm', '*', 'seeded/twins/level-ta
          why='the cube bound is undecided for step tables (exit 2), never a violation')
 dtwin('c18-function-number-check-inclusive', '*', 'seeded/twins/function-number-check-inclusive.diff',
       why='the function number is normalised with an inclusive range: every valid member is constructed as itself')
+fire('c13-stop-status-undefined', 'C13', P, 'Process.Solve', '        status = self.method.CheckStopCondition()\n', '', 'R13.3',
+     why='found by mutation sampling: the status handed to OnMethodStop is no longer assigned (NameError with a listener)')
+fire('c19-base-request-no-refill', 'C19', SD, 'SearchData.GetDataItemWithMaxGlobalR',
+     '        if self._RGlobalQueue.IsEmpty():\n            self.RefillQueue()\n', '        if self._RGlobalQueue.IsEmpty():\n            pass\n', 'R19.6',
+     why='found by mutation sampling: the empty bounded queue is popped without a refill')
+fire('c19-dual-request-no-refill-in-loop', 'C19', SD, 'SearchDataDualQueue.GetDataItemWithMaxLocalR',
+     '            if self.__RLocalQueue.IsEmpty():\n                self.RefillQueue()\n', '            if self.__RLocalQueue.IsEmpty():\n                pass\n', 'R19.6',
+     why='found by mutation sampling')
+fire('c06-setindex-stores-nothing', 'C06', SD, 'SearchDataItem.SetIndex', '        self.__index = index', '        pass', 'R06.12',
+     why='found by mutation sampling')
+fire('c06-setz-stores-elsewhere', 'C06', SD, 'SearchDataItem.SetZ', '        self.__z = z', '        self.z = z', 'R06.12')
+fire('c19-queue-clear-forwards-nothing', 'C19', SD, 'CharacteristicsQueue.Clear', '        self.__baseQueue.clear()', '        pass', 'R19.9',
+     why='found by mutation sampling')
+fire('c19-iter-raises-for-nonempty', 'C19', SD, 'SearchData.__iter__', '        if self.curIter is None:\n            raise StopIteration\n        else:\n            return self',
+     '        if self.curIter is not None:\n            raise StopIteration\n        else:\n            return self', 'R19.4',
+     why='found by mutation sampling')
